@@ -1,16 +1,11 @@
 import Driver.Proto
 import Model.BitSet
+import Lemmas.BitSet
 open Proto
 
-/-! Model driver of C08: two bit sets `A`, `B` per history.  Mutators print the `Count` of the receiver, queries their
-    result, `mem`/`obs`/`data` the observations described in go/cmd/c08/main.go (same text on both sides). -/
-
-structure St where
-  a : BS.T := {}
-  b : BS.T := {}
-
-def St.get (s : St) (r : String) : BS.T := if r == "A" then s.a else s.b
-def St.put (s : St) (r : String) (v : BS.T) : St := if r == "A" then { s with a := v } else { s with b := v }
+/-! Model driver of C08: two bit sets `A`, `B` per history.  Every mutating line is parsed to a `BS.Op` and executed
+    by `BS.applyOp` (the function the history theorems of Props/C08.lean are about); it prints the `Count` of the
+    receiver.  Queries print their result, `mem`/`obs`/`data` the observations described in go/cmd/c08/main.go. -/
 
 def hexWord (w : BS.W) : String := natToHex w.toNat
 
@@ -35,90 +30,80 @@ def memStr (b : BS.T) : String :=
   let ws := dropTrailingZeros ((List.range scanWords).map (stateWord b))
   if ws.isEmpty then "-" else ",".intercalate (ws.map natToHex)
 
-def regOk (r : String) : Bool := r == "A" || r == "B"
+def reg? (r : String) : Option BS.Reg :=
+  if r == "A" then some .A else if r == "B" then some .B else none
 
-def mutate (s : St) (r : String) (f : BS.T → BS.T) : St × String :=
-  if regOk r then
-    let v := f (s.get r)
-    (s.put r v, toString (BS.count v))
-  else (s, "bad-op")
+/-- the mutating lines -/
+def parseOp? : List String → Option BS.Op
+  | ["set", r, i] => do some (.set (← reg? r) (← i.toNat?))
+  | ["clr", r, i] => do some (.clear (← reg? r) (← i.toNat?))
+  | ["flip", r, i] => do some (.flip (← reg? r) (← i.toNat?))
+  | ["setr", r, i, j] => do some (.setRange (← reg? r) (← i.toNat?) (← j.toNat?))
+  | ["clrr", r, i, j] => do some (.clearRange (← reg? r) (← i.toNat?) (← j.toNat?))
+  | ["flipr", r, i, j] => do some (.flipRange (← reg? r) (← i.toNat?) (← j.toNat?))
+  | ["load", r, ws] => do some (.load (← reg? r) (← parseWords? ws))
+  | ["copy", r, q] => do some (.copy (← reg? r) (← reg? q))
+  | ["clone", r, q] => do some (.clone (← reg? r) (← reg? q))
+  | ["trim", r] => do some (.trim (← reg? r))
+  | ["ensure", r, n] => do some (.ensure (← reg? r) (← n.toNat?))
+  | ["rst", r] => do some (.reset (← reg? r))
+  | ["loaddata", r, q] => do some (.loadData (← reg? r) (← reg? q))
+  | _ => none
 
-def qry (s : St) (r : String) (f : BS.T → String) : St × String :=
-  if regOk r then (s, f (s.get r)) else (s, "bad-op")
+def qry (s : BS.Pair) (r : String) (f : BS.T → String) : BS.Pair × String :=
+  match reg? r with
+  | some r => (s, f (s.get r))
+  | none => (s, "bad-op")
 
-def step (s : St) (line : String) : St × String :=
-  match words line with
-  | ["reset"] => ({}, "reset")
-  | ["set", r, i] => match i.toNat? with
-    | some i => mutate s r (fun b => BS.setBit b i)
-    | none => (s, "bad-op")
-  | ["clr", r, i] => match i.toNat? with
-    | some i => mutate s r (fun b => BS.clearBit b i)
-    | none => (s, "bad-op")
-  | ["flip", r, i] => match i.toNat? with
-    | some i => mutate s r (fun b => BS.flipBit b i)
-    | none => (s, "bad-op")
-  | ["setr", r, i, j] => match i.toNat?, j.toNat? with
-    | some i, some j => mutate s r (fun b => BS.setRange b i j)
-    | _, _ => (s, "bad-op")
-  | ["clrr", r, i, j] => match i.toNat?, j.toNat? with
-    | some i, some j => mutate s r (fun b => BS.clearRange b i j)
-    | _, _ => (s, "bad-op")
-  | ["flipr", r, i, j] => match i.toNat?, j.toNat? with
-    | some i, some j => mutate s r (fun b => BS.flipRange b i j)
-    | _, _ => (s, "bad-op")
-  | ["load", r, ws] => match parseWords? ws with
-    | some l => mutate s r (fun b => BS.load b l)
-    | none => (s, "bad-op")
-  | ["copy", r, q] => if regOk q then mutate s r (fun b => BS.copy b (s.get q)) else (s, "bad-op")
-  | ["clone", r, q] => if regOk q then mutate s r (fun _ => BS.clone (s.get q)) else (s, "bad-op")
-  | ["trim", r] => mutate s r BS.trim
-  | ["ensure", r, n] => match n.toNat? with
-    | some n => mutate s r (fun b => BS.ensureCapacity b n)
-    | none => (s, "bad-op")
-  | ["rst", r] => mutate s r BS.reset
-  | ["data", r] =>
-    if regOk r then
-      let p := BS.data (s.get r)
-      (s.put r p.1, wordsStr p.2)
-    else (s, "bad-op")
-  | ["loaddata", r, q] =>
-    -- `r.Load(q.Data())`
-    if regOk r && regOk q then
-      let p := BS.data (s.get q)
-      let s := s.put q p.1
-      let v := BS.load (s.get r) p.2
-      (s.put r v, toString (BS.count v))
-    else (s, "bad-op")
-  | ["state", r, i] => match i.toNat? with
-    | some i => qry s r (fun b => toString (BS.state b i))
-    | none => (s, "bad-op")
-  | ["count", r] => qry s r (fun b => toString (BS.count b))
-  | ["first", r] => qry s r (fun b => toString (BS.firstSet b))
-  | ["last", r] => qry s r (fun b => toString (BS.lastSet b))
-  | ["next", r, i] => match i.toNat? with
-    | some i => qry s r (fun b => toString (BS.nextSet b i))
-    | none => (s, "bad-op")
-  | ["prev", r, i] => match i.toNat? with
-    | some i => qry s r (fun b => toString (BS.previousSet b i))
-    | none => (s, "bad-op")
-  | ["nextclr", r, i] => match i.toNat? with
-    | some i => qry s r (fun b => toString (BS.nextClear b i))
-    | none => (s, "bad-op")
-  | ["prevclr", r, i] => match i.toNat? with
-    | some i => qry s r (fun b => toString (BS.previousClear b i))
-    | none => (s, "bad-op")
-  | ["equal"] => (s, toString (BS.equal s.a s.b) ++ " " ++ toString (BS.equal s.b s.a))
-  | ["equalnil", r] => qry s r (fun _ => "false")
-  | ["mem", r] => qry s r memStr
-  | ["obs", r] =>
-    if regOk r then
-      let b := s.get r
-      let pre := "c=" ++ toString (BS.count b) ++ " m=" ++ memStr b ++ " f=" ++ toString (BS.firstSet b) ++
-        " l=" ++ toString (BS.lastSet b)
-      let p := BS.data b
-      (s.put r p.1, pre ++ " d=" ++ wordsStr p.2)
-    else (s, "bad-op")
-  | _ => (s, "bad-op")
+def qryAt (s : BS.Pair) (r i : String) (f : BS.T → Nat → String) : BS.Pair × String :=
+  match reg? r, i.toNat? with
+  | some r, some i => (s, f (s.get r) i)
+  | _, _ => (s, "bad-op")
 
-def main : IO Unit := Proto.run step ({} : St)
+def step (s : BS.Pair) (line : String) : BS.Pair × String :=
+  let ws := words line
+  match parseOp? ws with
+  | some op =>
+    let s' := BS.applyOp s op
+    let r := match ws with
+      | _ :: r :: _ => (reg? r).getD .A
+      | _ => .A
+    (s', toString (BS.count (s'.get r)))
+  | none =>
+    match ws with
+    | ["reset"] => ({}, "reset")
+    | ["pc", w] =>
+      -- area `popcnt`: the transcribed SWAR routine, cross-checked against its specification `BS.popcount`
+      match hexToNat? w with
+      | some n =>
+        let x : BS.W := BitVec.ofNat 64 n
+        let c := BS.countSetBits x
+        (s, if c == Int.ofNat (BS.popcount x) then toString c
+            else "swar=" ++ toString c ++ " popcount=" ++ toString (BS.popcount x))
+      | none => (s, "bad-op")
+    | ["data", r] =>
+      match reg? r with
+      | some r => (BS.applyOp s (.data r), wordsStr (BS.data (s.get r)).2)
+      | none => (s, "bad-op")
+    | ["state", r, i] => qryAt s r i (fun b i => toString (BS.state b i))
+    | ["count", r] => qry s r (fun b => toString (BS.count b))
+    | ["first", r] => qry s r (fun b => toString (BS.firstSet b))
+    | ["last", r] => qry s r (fun b => toString (BS.lastSet b))
+    | ["next", r, i] => qryAt s r i (fun b i => toString (BS.nextSet b i))
+    | ["prev", r, i] => qryAt s r i (fun b i => toString (BS.previousSet b i))
+    | ["nextclr", r, i] => qryAt s r i (fun b i => toString (BS.nextClear b i))
+    | ["prevclr", r, i] => qryAt s r i (fun b i => toString (BS.previousClear b i))
+    | ["equal"] => (s, toString (BS.equal s.a s.b) ++ " " ++ toString (BS.equal s.b s.a))
+    | ["equalnil", r] => qry s r (fun _ => "false")
+    | ["mem", r] => qry s r memStr
+    | ["obs", r] =>
+      match reg? r with
+      | some r =>
+        let b := s.get r
+        let pre := "c=" ++ toString (BS.count b) ++ " m=" ++ memStr b ++ " f=" ++ toString (BS.firstSet b) ++
+          " l=" ++ toString (BS.lastSet b)
+        (BS.applyOp s (.data r), pre ++ " d=" ++ wordsStr (BS.data b).2)
+      | none => (s, "bad-op")
+    | _ => (s, "bad-op")
+
+def main : IO Unit := Proto.run step ({} : BS.Pair)
